@@ -14,12 +14,18 @@ PICK = {"C05": ("zz_add.n2.alias0", "zz_add.n2.alias1", "zz_mod.n2.alias0", "ww_
         "C03": ("brng_inc", "botp.mac32"),
         "C12": ("date_yymmdd",),
         "C20": ("step", "history_inductive"),
-        "C01": ("block.g", "keyexpand.k24", "modes.cbc.cnt33.k32", "modes.ctr.cnt33.k32", "modes.mac.cnt17")}
+        "C01": ("block.g", "keyexpand.k24", "modes.cbc.cnt33.k32", "modes.ctr.cnt33.k32", "modes.mac.cnt17", "fmt.table")}
 GROUPS = []
 for pid, names in PICK.items():
     plan = _load(pid)
     for g in plan.GROUPS:
-        if g["name"] in names:
+        if g["name"] in names and g["backend"] == "native":
+            # native enumeration: assertion-enabled and release build of the same source must give the same table
+            for cfg, kw in (("debug", dict(ndebug=False)), ("ndebug", dict(ndebug=True)), ("fast", dict(fast=True, ndebug=True))):
+                g2 = dict(g); g2.update(kw); g2["name"] = "%s.%s.%s" % (cfg, pid, g["name"])
+                g2["note"] = "configuration %s of group %s/%s" % (cfg, pid, g["name"]); g2["tier"] = "quick"
+                GROUPS.append(g2)
+        elif g["name"] in names:
             for cfg, kw in (("m32", dict(arch=32, native=False, search=0)), ("fast", dict(fast=True)), ("ndebug", dict(ndebug=True)),
                             ("m32fast", dict(arch=32, fast=True, native=False, search=0))):
                 if cfg == "m32fast" and pid not in ("C05",):
